@@ -255,7 +255,6 @@ package collector
 //@   ensures  min:  err == nil ==> r != nil && fresh(r) && r.MinVersion >= 771 && len(r.Certificates) == 1 && !r.InsecureSkipVerify
 //@   ensures  noca: err == nil && isnil(cp.caCert) ==> r.ClientAuth == tls.NoClientCert
 //@   ensures  ca:   err == nil && !isnil(cp.caCert) ==> r.ClientAuth == tls.RequireAndVerifyClientCert && r.ClientCAs != nil && r.ClientCAs.filled && r.ClientCAs.pem == cp.caCert
-//@   noeffect
 //@   replay tlscfg-server
 
 //@ func (cp *CollectingProcess) startTCPServer() ()
